@@ -209,16 +209,16 @@ def verify_alias(run):
     run.under_contract("library", "Representation.import_statement", fn)
     txt = ast.unparse(fn)
     want = ["return 'import fuzzylite'", "return 'from fuzzylite import *'", "return f'import fuzzylite as {settings.alias}'"]
-    run.add(static(f"{fq}.import_statement/three_alias_cases", all(w in txt for w in want), "no alias -> `import fuzzylite`; '*' -> `from fuzzylite import *`; otherwise `import fuzzylite as <alias>`", fn=fq, meta=RP("py-exec-error")))
+    run.add(static(f"{fq}.import_statement/three_alias_cases", all(w in txt for w in want), "no alias -> `import fuzzylite`; '*' -> `from fuzzylite import *`; otherwise `import fuzzylite as <alias>`", fn=fq, meta=dict(RP("py-exec-error"), soft=True)))
     pk = ast.unparse(src.func("library", "Representation.package_of"))
     run.under_contract("library", "Representation.package_of", src.func("library", "Representation.package_of"))
     run.add(static(f"{fq}.package_of/prefix_matches_the_import_statement", all(w in pk for w in ("if not settings.alias:", "package = module.__name__", "elif settings.alias == '*':", "package = ''", "package = settings.alias")),
-                   "no alias -> module name prefix; '*' -> no prefix; otherwise the alias", fn=fq, meta=RP("py-exec-error")))
+                   "no alias -> module name prefix; '*' -> no prefix; otherwise the alias", fn=fq, meta=dict(RP("py-exec-error"), soft=True)))
     rf = src.func("library", "Representation.repr_float")
     run.under_contract("library", "Representation.repr_float", rf)
     body = ast.unparse(rf)
     run.add(static(f"{fq}.repr_float/inf_nan_through_the_alias_else_builtin_repr", "infinity = f'{self.package_of(settings)}{np.abs(x)!r}'" in body and "return f'{self.package_of(settings)}{x!r}'" in body and "return builtins.repr(x)" in body,
-                   "inf/-inf/nan are printed as <prefix>inf / -<prefix>inf / <prefix>nan, every other float with repr() (shortest round-tripping decimal, A-FMT)", fn=fq, meta=RP("py-values")))
+                   "inf/-inf/nan are printed as <prefix>inf / -<prefix>inf / <prefix>nan, every other float with repr() (shortest round-tripping decimal, A-FMT)", fn=fq, meta=dict(RP("py-values"), soft=True)))
 
 
 def verify_statics(run):
@@ -229,7 +229,7 @@ def verify_statics(run):
     assigns = [ast.unparse(n.value) for n in ast.walk(fn) if isinstance(n, ast.Assign) and any(isinstance(t, ast.Name) and t.id == "elements" for t in n.targets)]
     run.add(static("library.Representation.repr_ndarray/every_element_through_repr1", assigns == ["', '.join((self.repr1(y, level) for y in x))"],
                    f"assignments to `elements`: {assigns} (every element is printed by repr1, so that inf/nan get the alias prefix at any position)", fn="library.Representation.repr_ndarray",
-                   meta={"replay": {"module": "contracts.repr_native", "func": "replay_array_repr", "kwargs": {}, "vars": {}}}))
+                   meta={"soft": True, "replay": {"module": "contracts.repr_native", "func": "replay_array_repr", "kwargs": {}, "vars": {}}}))
     # reprlib truncates containers at its max* limits (4 entries for a dict by default): every container limit must be raised, or a large
     # collection is printed with a literal `...` that is not Python
     ri = src.func("library", "Representation.__init__")
@@ -240,7 +240,7 @@ def verify_statics(run):
     missing = [x for x in need if x not in raised]
     loops = [ast.unparse(n) for n in ast.walk(ri) if isinstance(n, ast.For)]
     run.add(static("library.Representation.__init__/every_reprlib_limit_is_raised", not missing and not loops, f"limits set in the constructor: {raised}; missing: {missing}; loops (not analysed): {len(loops)}",
-                   fn="library.Representation.__init__", meta={"replay": {"module": "contracts.repr_native", "func": "replay_large_collections", "kwargs": {}, "vars": {}}}))
+                   fn="library.Representation.__init__", meta={"soft": True, "replay": {"module": "contracts.repr_native", "func": "replay_large_collections", "kwargs": {}, "vars": {}}}))
     # the import header of the encapsulated export is computed at export time from the CURRENT alias (nothing cached in the exporter object)
     pe_init, enc = src.func("exporter", "PythonExporter.__init__"), src.func("exporter", "PythonExporter.encapsulate")
     run.under_contract("exporter", "PythonExporter.encapsulate", enc)
@@ -248,7 +248,7 @@ def verify_statics(run):
         + [ast.unparse(n)[:80] for n in ast.walk(pe_init) if isinstance(n, ast.Attribute) and ast.unparse(n).startswith("settings.")]
     at_export = any(isinstance(n, ast.Call) and ast.unparse(n.func) == "representation.import_statement" for n in ast.walk(enc))
     run.add(static("exporter.PythonExporter/import_header_computed_at_export_time", not cached and at_export, f"settings-dependent values computed in the constructor: {cached}; encapsulate() calls representation.import_statement(): {at_export}",
-                   fn="exporter.PythonExporter.encapsulate", meta={"replay": {"module": "contracts.repr_native", "func": "replay_exporter_reuse", "kwargs": {}, "vars": {}}}))
+                   fn="exporter.PythonExporter.encapsulate", meta={"soft": True, "replay": {"module": "contracts.repr_native", "func": "replay_exporter_reuse", "kwargs": {}, "vars": {}}}))
     ei = src.func("engine", "Engine.__init__")
     run.under_contract("engine", "Engine.__init__", ei)
     loops = [ast.unparse(n) for n in ast.walk(ei) if isinstance(n, ast.For)]
@@ -256,7 +256,7 @@ def verify_statics(run):
     vp = ast.unparse(src.func("engine", "Engine.variables", "getter").body[-1])
     run.add(static("engine.Engine.__init__/references_of_the_terms_of_all_variables_are_updated", want in loops and vp in ("return self.input_variables + self.output_variables", "return [*self.input_variables, *self.output_variables]"),
                    f"loops in the constructor: {[l.splitlines()[0] for l in loops]}; Engine.variables: `{vp}`", fn="engine.Engine.__init__",
-                   meta={"replay": {"module": "contracts.repr_native", "func": "replay_rebuild_references", "kwargs": {}, "vars": {}}}))
+                   meta={"soft": True, "replay": {"module": "contracts.repr_native", "func": "replay_rebuild_references", "kwargs": {}, "vars": {}}}))
 
 
 def verify_binding(run):
